@@ -258,7 +258,13 @@ def _features(body: str) -> str:
     return fs[0] if fs else "plain"
 
 
-def _cause(body: str, astral: bool) -> str:
+_STRING_COMPARISON = re.compile(r'(==|!=) "|" (==|!=)|(==|!=) [A-Z]\w*(?![\w.])')
+
+
+def _cause(body: str, astral: bool, target: str = "") -> str:
+    if target == "java" and _STRING_COMPARISON.search(body):
+        # == / != between strings (literal or constant): Java compares references
+        return "string-comparison"
     if astral and re.search(r"\blen\(", body):
         # len() of a string with characters outside the BMP: UTF-16 code units vs code points
         return "len-with-astral-text"
@@ -341,7 +347,7 @@ def compare_doc(target: str, spec: Spec, item: Dict[str, Any], py: Dict[str, Any
                 kind = "fewer-duplicates"
             else:
                 kind = "missing-error"
-            f = _cause(body, astral)
+            f = _cause(body, astral, target)
             fails.append((f"{target}:errors-differ:{kind}:{f}", f"invariant={body!r} desc={desc!r} path={path!r}\n{head}"))
         for path, desc in extra[:2]:
             if desc not in bodies:
@@ -350,6 +356,6 @@ def compare_doc(target: str, spec: Spec, item: Dict[str, Any], py: Dict[str, Any
             elif not any(dd == desc for _, dd in missing):
                 body = bodies[desc]
                 kind = "more-duplicates" if ce[(path, desc)] > 0 else "extra-error"
-                f = _cause(body, astral)
+                f = _cause(body, astral, target)
                 fails.append((f"{target}:errors-differ:{kind}:{f}", f"invariant={body!r} desc={desc!r} path={path!r}\n{head}"))
     return fails
